@@ -230,10 +230,22 @@ def _same(arg, copy):
         return False
 
 
+def _numeric(r, shape):
+    """what the code under test returned can be compared with a reference of this shape"""
+    try:
+        a = np.asarray(r)
+        return a.shape == tuple(shape) and a.dtype.kind in "fciu"
+    except Exception:  # noqa
+        return False
+
+
 def _scribble(r):
     """what a caller may do with a result it owns (fk: kscale[0] = 1e-6, taper *= ...; agc: gain += ...)"""
     if isinstance(r, np.ndarray) and r.flags.writeable and r.size:
-        r[...] = -7.0 if r.dtype.kind in "iu" else np.nan
+        try:
+            r[...] = np.nan if r.dtype.kind in "fc" else 7
+        except Exception:  # noqa - whatever dtype the code under test came up with: nothing to overwrite then
+            pass
 
 
 def _int_kind(n, kind):
@@ -612,7 +624,8 @@ def _run_conv(case, ctx):
 
     def check_full(got, which):
         got = np.asarray(got)
-        ok = got.ndim == E.ndim and got.shape[:-1] == E.shape[:-1] and L <= got.shape[-1] <= L + 1
+        ok = (got.ndim == E.ndim and got.shape[:-1] == E.shape[:-1] and L <= got.shape[-1] <= L + 1
+              and got.dtype.kind in "fiu")
         if ctx.check(ok, kfull, lambda: f"'full' shape {got.shape}, expected {E.shape[:-1] + (L,)} (+1 trailing zero); "
                                         f"nsx={nsx} nsw={nsw} true padded size {pad} ({which})"):
             err = float(np.max(np.abs(got[..., :L] - E) / scale))
@@ -630,7 +643,7 @@ def _run_conv(case, ctx):
 
     def check_same(got, which):
         got = np.asarray(got)
-        if ctx.check(got.shape == Es.shape, ksame, lambda: f"'same' shape {got.shape}, expected {Es.shape}; nsx={nsx} "
+        if ctx.check(got.shape == Es.shape and got.dtype.kind in "fiu", ksame, lambda: f"'same' shape {got.shape}, expected {Es.shape}; nsx={nsx} "
                                                           f"nsw={nsw} true padded size {pad} ({which})"):
             err = float(np.max(np.abs(got - Es) / scale))
             if not (err <= tol):
@@ -863,7 +876,7 @@ def _run_spec(case, ctx):
         return F.fexpand(F.freduce(X_in, **akw), n_arg, **akw)
     rt = ctx.call("C18.reduce_expand", _roundtrip)
     if rt is not ctx.CRASH:
-        if ctx.check(np.shape(rt) == X.shape, "C18.reduce_expand", lambda: f"round trip shape {np.shape(rt)} != {X.shape}"):
+        if ctx.check(_numeric(rt, X.shape), "C18.reduce_expand", lambda: f"round trip shape {np.shape(rt)} != {X.shape}"):
             xnorm = np.maximum(np.sqrt(np.sum(np.abs(X) ** 2, axis=pos, keepdims=True)), 1e-300)
             err = float(np.max(np.abs(rt - X) / xnorm))
             ctx.stat("roundtrip_err_in_eps", err / EPS["f8"])
@@ -912,7 +925,7 @@ def _check_dft(case, ctx, F, x, xv, xin, X, n, pos, ndim, axarg, rng):
             got = ctx.call("C18.dft", F.dft, xi, **kw)
             if got is ctx.CRASH:
                 break
-            if not ctx.check(np.shape(got) == ref.shape, "C18.dft", lambda: f"dft of {name} x shape {xi.shape} axis {dax}: "
+            if not ctx.check(_numeric(got, ref.shape), "C18.dft", lambda: f"dft of {name} x shape {xi.shape} axis {dax}: "
                                                                            f"shape {np.shape(got)}, expected {ref.shape}"):
                 break
             err = float(np.max(np.abs(got - ref) / s)) / n
@@ -934,7 +947,7 @@ def _check_dft(case, ctx, F, x, xv, xin, X, n, pos, ndim, axarg, rng):
         got = ctx.call("C18.dft", F.dft, xp, xscale=pin, **kw)
         if got is not ctx.CRASH:
             ref = np.fft.rfft(x, axis=pos)
-            if ctx.check(np.shape(got) == ref.shape, "C18.dft", lambda: f"dft(x[perm], xscale=perm) has shape {np.shape(got)}, "
+            if ctx.check(_numeric(got, ref.shape), "C18.dft", lambda: f"dft(x[perm], xscale=perm) has shape {np.shape(got)}, "
                                                                        f"expected {ref.shape}"):
                 s = np.maximum(np.sum(np.abs(x), axis=pos, keepdims=True), 1e-300)
                 err = float(np.max(np.abs(got - ref) / s)) / n
@@ -1153,11 +1166,11 @@ def _run_dft2(case, ctx):
         if got is ctx.CRASH:
             break
         if case["vector"]:
-            ok = np.shape(got) in ((nk, nl), (nk, nl, 1))
+            ok = _numeric(got, (nk, nl)) or _numeric(got, (nk, nl, 1))
             if ctx.check(ok, kind, lambda: f"dft2 of a vector: shape {np.shape(got)}, expected ({nk},{nl}[,1])"):
                 err = float(np.max(np.abs(np.reshape(got, (nk, nl)) - ref[:, :, 0]))) / float(s)
                 ctx.check(err <= tol, kind, lambda: f"dft2 of a vector differs from fft2 by {err:.3g} x sum|x| ({which})")
-        elif ctx.check(np.shape(got) == (nk, nl, nt), kind, lambda: f"dft2 shape {np.shape(got)}, expected {(nk, nl, nt)}"):
+        elif ctx.check(_numeric(got, (nk, nl, nt)), kind, lambda: f"dft2 shape {np.shape(got)}, expected {(nk, nl, nt)}"):
             err = float(np.max(np.abs(got - ref) / s))
             ctx.stat("dft2_err_in_eps", err / (nk + nl) / EPS["f8"])
             ctx.check(err <= tol, kind, lambda: f"dft2 on a {nk}x{nl} grid ({pts.size} points, data {x0.dtype} layout {lay}, "
